@@ -43,6 +43,11 @@ class TDim:
     def pv_getattr(self, ip, attr):
         raise Unsupported('dimension attribute %s' % attr)
 
+    def pv_compare(self, ip, opname, other):
+        # dimensions are not represented: dimension checks of the code are assumed to pass (verdicts hold for all
+        # tensors whose dimensions fit)
+        return opname in ('Eq', 'LtE', 'GtE')
+
     def __repr__(self):
         return 'dim<%s>' % self.desc
 
@@ -123,11 +128,100 @@ class TArr:
         if opname == 'matmul':
             a, b = (other, self) if reflected else (self, other)
             return tdot(a, b, matmul=True)
+        if opname in ('add', 'sub') and isinstance(other, (TArr, TSum)):
+            return TSum.of(self).pv_binop(ip, opname, other, reflected)
         if opname == 'mul':
             if isinstance(other, TArr):
                 raise Unsupported('elementwise product of tensors')
+            if isinstance(other, TSum):
+                raise Unsupported('product of sums of tensors')
+            from .values import Cx
+            if isinstance(other, (Cx, complex, float)) or getattr(ip, 'tsum_scalars', False):
+                return TSum.of(self).scaled(other)
             return TArr(self.factors, self.out, self.coeff + (scalar_name(other),))
         raise Unsupported('tensor operator %s' % opname)
+
+
+class Coef:
+    """numeric (complex) factor times a multiset of named real scalars"""
+
+    def __init__(self, num=1, names=()):
+        self.num, self.names = complex(num), tuple(sorted(names))
+
+    def times(self, other):
+        from .values import Cx, is_z3
+        if isinstance(other, Coef):
+            return Coef(self.num * other.num, self.names + other.names)
+        if isinstance(other, (int, float, complex)) and not isinstance(other, bool):
+            return Coef(self.num * other, self.names)
+        if isinstance(other, Cx):
+            re, im = z3.simplify(other.re) if is_z3(other.re) else other.re, z3.simplify(other.im) if is_z3(other.im) else other.im
+            val = lambda v: float(v.numerator_as_long()) / float(v.denominator_as_long()) if is_z3(v) and z3.is_rational_value(v) else (float(v) if not is_z3(v) else None)
+            if val(re) is not None and val(im) is not None:
+                return Coef(self.num * complex(val(re), val(im)), self.names)
+            raise Unsupported('symbolic complex coefficient')
+        if is_z3(other):
+            v = z3.simplify(other)
+            if z3.is_rational_value(v):
+                return Coef(self.num * (float(v.numerator_as_long()) / float(v.denominator_as_long())), self.names)
+            if z3.is_int_value(v):
+                return Coef(self.num * v.as_long(), self.names)
+            return Coef(self.num, self.names + (str(v),))
+        raise Unsupported('coefficient %r' % (other,))
+
+    def __eq__(self, other):
+        return isinstance(other, Coef) and abs(self.num - other.num) < 1e-12 and self.names == other.names
+
+    def __repr__(self):
+        return '%s%s' % (self.num, ''.join('*' + n for n in self.names))
+
+
+class TSum:
+    """formal sum of einsum terms with coefficients (for  A (x) 1 - 1 (x) A^T  and the like)"""
+
+    def __init__(self, items):
+        self.items = [(c if isinstance(c, Coef) else Coef(c), t) for c, t in items]            # [(Coef, TArr)]
+
+    @staticmethod
+    def of(x):
+        return x if isinstance(x, TSum) else TSum([(1, x)])
+
+    def scaled(self, k):
+        return TSum([(c.times(k), t) for c, t in self.items])
+
+    def pv_binop(self, ip, opname, other, reflected=False):
+        if opname in ('add', 'sub') and isinstance(other, (TSum, TArr)):
+            o = TSum.of(other)
+            if reflected:
+                return TSum(o.items + (self.scaled(-1).items if opname == 'sub' else self.items))
+            return TSum(self.items + (o.scaled(-1).items if opname == 'sub' else o.items))
+        if opname == 'mul' and not isinstance(other, (TSum, TArr)):
+            return self.scaled(other)
+        raise Unsupported('operator %s on a sum of tensor terms' % opname)
+
+    def pv_getattr(self, ip, attr):
+        from .interp import Builtin
+        if attr == 'T':
+            return TSum([(c, t.pv_getattr(ip, 'T')) for c, t in self.items])
+        raise Unsupported('attribute %s of a sum of tensor terms' % attr)
+
+    def __repr__(self):
+        return ' + '.join('%r*%r' % (c, t) for c, t in self.items)
+
+
+def sum_equal(x, y):
+    """equality of formal sums: a coefficient-respecting matching of the terms"""
+    xs, ys = TSum.of(x).items, list(TSum.of(y).items)
+    if len(xs) != len(ys):
+        return False
+    for c, t in xs:
+        for k, (d, u) in enumerate(ys):
+            if c == d and equal(t, u):
+                ys.pop(k)
+                break
+        else:
+            return False
+    return not ys
 
 
 def conj_name(s):
